@@ -20,8 +20,8 @@ type c20Dump struct {
 	Clients  map[string]server.ClientStats
 	Exists   map[string]bool
 	QueueLen map[string]int // client id -> elements actually in its (memory) queue, -1 unknown
-	Sessions int // sessions in the session store
-	Online   int // entries of the online client list
+	Sessions int            // sessions in the session store
+	Online   int            // entries of the online client list
 }
 
 func init() {
@@ -156,6 +156,7 @@ func genC20(rng *rand.Rand, tier string) *sim.Plan {
 		}
 		p.Phases = append(p.Phases, lp, dump)
 	}
+	maybeRedis(rng, p, 0.2)
 	return p
 }
 
